@@ -282,6 +282,20 @@ def run(prop, tier, seed, update_lock=False, verbose=False):
         for name, r, backend, secs, path, goal in out["results"]:
             by_name.setdefault(name, []).append(
                 (_Stub(name, path, goal, c), r, backend, secs))
+    # anti-vacuity: a loop whose invariants are established but never
+    # re-established has a body that never reaches its end on any path
+    import re as _re
+    inits, press = set(), set()
+    for name in by_name:
+        m = _re.match(r"(.*)#inv-(init|pres):(L\d+)\.", name)
+        if m:
+            (inits if m.group(2) == "init" else press).add(
+                (m.group(1), m.group(3)))
+    for fn_name, loop in sorted(inits - press):
+        if not any(fn_name in u for u in result["undecided"]):
+            result["errors"].append(
+                f"{fn_name}: loop {loop} has no preservation obligation (its "
+                f"body never reaches its end: vacuous loop specification?)")
     discharged_names, failed = set(), {}
     n_inst = n_unsat = 0
     backends = {}
